@@ -29,6 +29,7 @@ fn main() {
     let code = match args.prop.as_str() {
         "lab" => lab::run(),
         "labpreview" => lab::preview_probe(),
+        "lablimit" => lab::limit_probe(),
         "c01" | "c02" => c01::run(&args),
         "c03" => c03::run(&args),
         "c04" => c04::run(&args),
